@@ -1,5 +1,6 @@
 """Replay of SCHC-layer cases (compress / decompress / match / encodelength / decodevar ...)."""
 from core import Driver, mk, bits_of, L, R, Buffer
+from core import mkmap, given_items
 from schc_util import ref_compress, ref_decompress, ref_rule_applies, ref_size_prefix, DIRS
 from microschc.rfc8724 import (FieldDescriptor, PacketDescriptor, RuleFieldDescriptor, RuleDescriptor, MatchMapping,
                                RuleNature, DirectionIndicator as DI, MatchingOperator as MO,
@@ -33,7 +34,7 @@ def lib_rule(nr):
         if f['tv'][0] == 'b':
             tv = mk(f['tv'][1])
         else:
-            tv = MatchMapping({mk(v): mk(i) for v, i in f['tv'][1]})
+            tv = mkmap({mk(v): mk(i) for v, i in f['tv'][1]})
         fds.append(RuleFieldDescriptor(id_of(f['fid']), f['len'], f['pos'], DIRS[f['dir']], tv, MOS[f['mo']], CDAS[f['cda']]))
     if nr['nature'] == 'F':
         return RuleDescriptor(id=mk(nr['id']), nature=RuleNature.FRAGMENTATION, field_descriptors=fds)
